@@ -37,7 +37,8 @@ def uniquetrees(paths):
     if not paths:
         return []
 
-    paths = [(i, [i.root.value] + i.split()) for i in paths]
+    paths = [(i, [(type(i.root).__name__, i.root.value)] + i.split())
+             for i in paths]
     paths.sort(key=lambda i: i[1])
     piter = iter(paths)
 
